@@ -595,13 +595,13 @@ DIRECTED_LONG_CELL = {
     'backend': {'kind': 'dir', 'serialized': True, 'protocol': None}, 'maxsize': 3, 'purge': False}
 
 
-def gen_cells_c17(rng, n, with_backend=False):
+def gen_cells_c17(rng, n, with_backend=False, codecs=False):
     from kv import keymon
     cells = []
     for _ in range(n):
         spec = keymon.gen_spec(rng)
         km = rng.choice([k for k in gen.keymap_cfgs(info_preserving=True)])
-        if not with_backend and rng.random() < 0.2:
+        if codecs and not with_backend and rng.random() < 0.2:
             # stringmap with a real codec and each error mode (a key that cannot be encoded raises - in every process alike)
             km = {'cls': 'stringmap', 'type': rng.choice(['utf_8', 'latin_1', 'ascii', 'utf_16']), 'flat': rng.random() < 0.6,
                   'typed': rng.random() < 0.3, 'sentinel': False, 'kw': {'strict': rng.choice([True, None, False])}}
@@ -693,7 +693,7 @@ def name_too_long_mech(cell):
 
 
 def run_c17_keys(rng, ncells, root, viol, cnt, cells=None):
-    cells = gen_cells_c17(rng, ncells) if cells is None else cells
+    cells = gen_cells_c17(rng, ncells, codecs=True) if cells is None else cells
     reports = []
     seeds = ['0', '1', str(rng.randrange(2, 4000000)), 'random']
     for j, hs in enumerate(seeds):
